@@ -111,6 +111,17 @@ def run(rep: Report, tier: str, seed: int) -> None:
                                              ["Hidden6", "hm6"], ["vpkg/sx6/_impl6/Hidden6"]),
         "import-under-type-checking-of-init": ({"sx8/__init__.py": "from typing import TYPE_CHECKING\n\nif TYPE_CHECKING:\n    from ._impl8 import Hidden8\n", "sx8/_impl8.py": "class Hidden8:\n    def hm8(self) -> int:\n        return 1\n", "sx8/pub.py": "def p() -> int:\n    return 1\n"},
                                                ["Hidden8", "hm8"], ["vpkg/sx8/_impl8/Hidden8"]),
+        # a sub-package imports a module of its PARENT under a public alias; its own private module of the same name stays private
+        "parent-module-alias-next-to-same-named-private-sibling": ({"sx9/__init__.py": "", "sx9/_util9.py": "def shared9() -> int:\n    return 1\n", "sx9/sub9/__init__.py": "from .. import _util9 as util9\n",
+                                                                    "sx9/sub9/_util9.py": "def secret9() -> int:\n    return 1\n\n\nclass Secret9:\n    def sm9(self) -> int:\n        return 1\n", "sx9/sub9/pub.py": "def p() -> int:\n    return 1\n"},
+                                                                   ["secret9", "Secret9", "sm9"], ["vpkg/sx9/sub9/_util9/secret9", "vpkg/sx9/sub9/_util9/Secret9"]),
+        # the package imports its private MODULE under a public alias; private declarations elsewhere carry the module's name
+        "module-alias-next-to-equally-named-private-declarations": ({"sx10/__init__.py": "from . import _helper10 as helper10\n", "sx10/_helper10.py": "def in_helper10() -> int:\n    return 1\n",
+                                                                     "sx10/other.py": "def _helper10() -> int:\n    return 1\n\n\nclass Pub10:\n    _helper10: int = 1\n\n\nclass Pub10b:\n    def _helper10(self) -> int:\n        return 1\n"},
+                                                                    ["_helper10"], ["vpkg/sx10/other/_helper10", "vpkg/sx10/other/Pub10b/_helper10"]),
+        # a private subclass re-assigns an attribute that its public base class declares
+        "inherited-attribute-reassigned-in-private-subclass": ({"sx11/__init__.py": "", "sx11/mod.py": "class Base11:\n    def __init__(self, n: str) -> None:\n        self.name11 = n\n\n\nclass _Priv11(Base11):\n    def __init__(self, o: Base11) -> None:\n        self.name11 = o.name11\n        self.fresh11 = 3\n"},
+                                                               ["fresh11", "_Priv11"], ["vpkg/sx11/mod/_Priv11/name11", "vpkg/sx11/mod/_Priv11/fresh11"]),
         "star-reexport-with-all": ({"sx7/__init__.py": "from ._star7 import *\n", "sx7/_star7.py": "__all__ = [\"Listed7\"]\n\n\nclass Listed7:\n    pass\n\n\nclass NotListed7:\n    def nl7(self) -> int:\n        return 1\n", "sx7/pub.py": "def p() -> int:\n    return 1\n"},
                                    ["NotListed7", "nl7"], ["vpkg/sx7/_star7/NotListed7"]),
         "function-name-suffix": ({"sx3/__init__.py": "from ._m import run\n", "sx3/_m.py": "def run() -> int:\n    return 1\n\n\ndef dry_run() -> int:\n    return 1\n\n\ndef rerun() -> int:\n    return 1\n",
@@ -130,7 +141,7 @@ def run(rep: Report, tier: str, seed: int) -> None:
             return
         idx = index_stubs(obs)
         api = obs.api() or {}
-        publicity = {e["id"]: e.get("is_public") for lst in ("classes", "functions") for e in api.get(lst, [])}
+        publicity = {e["id"]: e.get("is_public") for lst in ("classes", "functions", "attributes") for e in api.get(lst, [])}
         for name in us:
             _, absent, private_ids = suffix_inputs[name]
             rep.case(f"suffix:{name}", True)
